@@ -27,7 +27,8 @@ pub struct BTreeMap<K, V> {
 pub type HashMap<K, V> = BTreeMap<K, V>;
 
 fn none_array<T>() -> [Option<T>; CAP] {
-  core::array::from_fn(|_| None)
+  // inline const instead of array::from_fn: 8x cheaper to execute symbolically for big T
+  [const { None }; CAP]
 }
 
 impl<K, V> BTreeMap<K, V> {
@@ -943,7 +944,7 @@ impl<K> BTreeSet<K> {
     self.m.pop_last().map(|(k, _)| k)
   }
   pub fn verif_from_parts(len: usize, keys: [Option<K>; CAP]) -> Self {
-    let vals: [Option<()>; CAP] = core::array::from_fn(|j| Some(()));
+    let vals: [Option<()>; CAP] = [Some(()); CAP];
     BTreeSet {
       m: BTreeMap::verif_from_parts(len, keys, vals),
     }
